@@ -63,6 +63,9 @@ class RayEval(poly.PathEval):
                     raise poly._NeedDecision(key)
         return super()._cond(c, vals, dec)
 
+    def dom_key(self, x, y):
+        return None       # decisions are keyed in _cond above; equality tests are not shared
+
     def dom_input(self, vn):
         if vn not in self.inputs:
             raise poly.Unsupported("input cell %s has no ray value" % vn)
